@@ -7,8 +7,8 @@ CONSTANTS
   Consumed = 1
   SingleLE = TRUE
   MaxUnits = 3
-  LaterBatch = TRUE
-  SizeSet <- SizesAll
+  LaterBatch = FALSE
+  SizeSet <- SizesEdge
 INVARIANT SizeOK
 INVARIANT Conserved
 INVARIANT NonEmpty
